@@ -6,6 +6,7 @@ import PpciVerif.Model.OptCheck
 All operations of `Spec.IRRun` (load / config / wf / run / env / show / roundtrip) on the current module, plus
 
   keep                 remember the current module as "before"                       -> ok
+  check subst          validator `Model.OptCheck.checkSubst before current`                -> ok 1 | ok 0
   check align          validator `Model.OptCheck.checkAlign before current`                -> ok 1 | ok 0
   pass <name>          model pass (`Model.Opt.passByName`) applied to every function of the current module
                        -> ok <sexpr of the result> | err <PythonExceptionName> | bad-op
@@ -24,6 +25,10 @@ def step (st : St) (line : String) : St × String :=
   | ["ssa"], some m =>
     (st, "ok " ++ " ".intercalate (m.funcs.map fun f =>
       f.name ++ "=" ++ (if Model.OptCheck.ssaCheck f (Model.OptCheck.computeDoms f) then "1" else "0")))
+  | ["check", "subst"], some m =>
+    match st.before with
+    | some b => (st, if Model.OptCheck.checkSubst b m then "ok 1" else "ok 0")
+    | none => (st, "bad-op")
   | ["check", "align"], some m =>
     match st.before with
     | some b => (st, if Model.OptCheck.checkAlign b m then "ok 1" else "ok 0")
